@@ -13,11 +13,14 @@ import (
 	"hash/fnv"
 	"os"
 	"path/filepath"
+	"regexp"
+	"runtime"
 	"sort"
 	"strconv"
 	"strings"
 	"sync"
 	"testing"
+	"time"
 
 	"pgregory.net/rapid"
 )
@@ -245,7 +248,9 @@ func (r *Runner[S]) writeReplay(js []byte, h string, v Verdict) string {
 // judge runs one scenario and handles known findings. It returns a non-empty string when the
 // scenario is a (new) violation.
 func (r *Runner[S]) judge(sc S, counting bool) (string, Verdict, []byte, string) {
+	stop := r.watchWedge(sc)
 	v := r.run(sc)
+	stop()
 	js, h := r.account(sc, v, counting)
 	if v.Violation == "" || v.Excluded {
 		return "", v, js, h
@@ -263,6 +268,119 @@ func (r *Runner[S]) judge(sc S, counting bool) (string, Verdict, []byte, string)
 		return "", v, js, h
 	}
 	return v.Violation, v, js, h
+}
+
+// wedgeRe matches goroutines that have been waiting for a lock for minutes.
+var wedgeRe = regexp.MustCompile(`(?m)^goroutine (\d+) \[(sync\.Mutex\.Lock|sync\.RWMutex\.R?Lock|semacquire)[^\]]*?, (\d+) minutes`)
+
+// lockWedged returns, per goroutine id, the stack of goroutines that sit in code of the node (not of the
+// harness) and have been waiting for a lock for at least a minute.
+func lockWedged() map[string]string {
+	buf := make([]byte, 16<<20)
+	n := runtime.Stack(buf, true)
+	out := map[string]string{}
+	for _, g := range strings.Split(string(buf[:n]), "\n\n") {
+		m := wedgeRe.FindStringSubmatch(g)
+		if m == nil || !strings.Contains(g, "github.com/evstack/ev-node/") {
+			continue
+		}
+		out[m[1]] = g
+	}
+	return out
+}
+
+// watchWedge guards the evaluation of one scenario against a wedge no virtual clock gets past: a goroutine
+// of the node that waits for a sync lock forever is not "durably blocked" for a synctest bubble, so virtual
+// time stops and the run would sit there until the test deadline (exit 2). The verdict is structural, not a
+// time budget: after 150 s of wall clock the same goroutine, inside the node's code, has been waiting for a
+// lock for minutes in two goroutine dumps 20 s apart. Then the scenario is written as a replay file and the
+// process exits 1 (world.Emergency). Anything else that is merely slow is left alone.
+// spinRe matches goroutines that are executing (not waiting for anything).
+var spinRe = regexp.MustCompile(`(?m)^goroutine (\d+) \[(running|runnable)[^\]]*\]`)
+
+// spinning returns, per goroutine id, the innermost function of the node's code that goroutines currently
+// executing inside the node's loops are in.
+func spinning() map[string]string {
+	buf := make([]byte, 16<<20)
+	n := runtime.Stack(buf, true)
+	out := map[string]string{}
+	for _, g := range strings.Split(string(buf[:n]), "\n\n") {
+		m := spinRe.FindStringSubmatch(g)
+		if m == nil || !strings.Contains(g, "github.com/evstack/ev-node/block.(*Manager).") {
+			continue
+		}
+		for _, line := range strings.Split(g, "\n") {
+			if strings.HasPrefix(line, "github.com/evstack/ev-node/block.(*Manager).") && strings.Contains(line, "Loop") {
+				out[m[1]] = strings.SplitN(line, "(0x", 2)[0]
+			}
+		}
+	}
+	return out
+}
+
+// BusyLoop samples the goroutines four times over about 22 s and returns the node loop (if any) that was
+// executing - never waiting - in all four samples.
+func BusyLoop() string {
+	s1 := spinning()
+	time.Sleep(20 * time.Second)
+	s2 := spinning()
+	time.Sleep(200 * time.Millisecond)
+	s3 := spinning()
+	time.Sleep(2 * time.Second)
+	for id, fn := range spinning() {
+		if s1[id] == fn && s2[id] == fn && s3[id] == fn {
+			return fn
+		}
+	}
+	return ""
+}
+
+func (r *Runner[S]) watchWedge(sc S) func() {
+	done := make(chan struct{})
+	go func() {
+		select {
+		case <-done:
+			return
+		case <-time.After(150 * time.Second):
+		}
+		for {
+			first := lockWedged()
+			spin1 := spinning()
+			select {
+			case <-done:
+				return
+			case <-time.After(20 * time.Second):
+			}
+			// a background loop of the node that has been EXECUTING (never waiting) in four dumps over 22 s while
+			// the scenario does not get anywhere: a busy loop (virtual time cannot pass it either)
+			spin2 := spinning()
+			time.Sleep(200 * time.Millisecond)
+			spin3 := spinning()
+			time.Sleep(2 * time.Second)
+			spin4 := spinning()
+			for id, fn := range spin4 {
+				if spin1[id] == fn && spin2[id] == fn && spin3[id] == fn {
+					Emergency(r.id, r.name, r.id+"/busy-loop", sc, "the scenario cannot proceed: %s has been executing without ever waiting for more than 20 s (same goroutine in four goroutine dumps): a busy loop", fn)
+				}
+			}
+			second := lockWedged()
+			for id, st := range second {
+				if _, ok := first[id]; ok {
+					lines := strings.Split(st, "\n")
+					if len(lines) > 14 {
+						lines = lines[:14]
+					}
+					Emergency(r.id, r.name, r.id+"/wedged-on-lock", sc, "the scenario cannot proceed: a goroutine of the node has been waiting for a lock for minutes (seen in two goroutine dumps 20 s apart; no timer can wake it):\n%s", strings.Join(lines, "\n"))
+				}
+			}
+			select {
+			case <-done:
+				return
+			case <-time.After(60 * time.Second):
+			}
+		}
+	}()
+	return func() { close(done) }
 }
 
 func (r *Runner[S]) flush() {
